@@ -40,4 +40,10 @@ def h_defs_client_UpdateDAG : Nat := 0xb9f6821fac177f33
 /-- hash of the normalised skeleton of DeleteDAG (internal/client/client.go) -/
 def h_defs_client_DeleteDAG : Nat := 0x5b3ced16f8054715
 
+/-- hash of the normalised skeleton of * (internal/persistence/local/dag_store.go) -/
+def h_rest_defs_persistence_local_dag_store_go : Nat := 0x1297584bdd286d4c
+
+/-- hash of the normalised skeleton of * (internal/client/client.go) -/
+def h_rest_defs_client_client_go : Nat := 0x1a3c5e62adde9845
+
 end BdModel.Canon.Defs
